@@ -241,8 +241,15 @@ func dlgScenario(s dlg) sched.Scenario {
 // dbl: the command ends in a doubled character and unread bytes (the prompt printed at connect) precede its
 // echo -- what a fuzzy echo matcher that lets one echoed byte count twice needs in order to return early
 func cmdScenario(eager, dbl, long bool, maxChunk, env int) sched.Scenario {
+	return cmdScenarioX(eager, dbl, long, false, maxChunk, env)
+}
+
+func cmdScenarioX(eager, dbl, long, exact bool, maxChunk, env int) sched.Scenario {
 	cmd := cm.Cmd1
 	name := fmt.Sprintf("cmd/eager=%v/chunk=%d/env=%d", eager, maxChunk, env)
+	if exact {
+		name += "/exact"
+	}
 	if dbl {
 		cmd = "show vlan 100"
 		name += "/doubled"
@@ -287,6 +294,9 @@ func cmdScenario(eager, dbl, long bool, maxChunk, env int) sched.Scenario {
 				var o []util.Option
 				if eager {
 					o = append(o, opoptions.WithEager())
+				}
+				if exact {
+					o = append(o, opoptions.WithExactMatchInput())
 				}
 				w0 = len(tr.Writes)
 				e.OpenWindow()
@@ -355,6 +365,10 @@ func escScenario(s esc) sched.Scenario {
 						switch s.behaviour {
 						case "asks-grants", "asks-refuses":
 							return dev.Reply{Raw: &pw, Next: "pw"}
+						case "asks-gives-up":
+							// the password prompt and, in the same burst, a refusal and the exec prompt again
+							raw := pw + "\n% Authentication server unreachable\nrouter>"
+							return dev.Reply{Raw: &raw}
 						case "grants":
 							if s.noise {
 								raw := "router#\n%LINK-3-UPDOWN: Interface Gi1, changed state to up\n"
@@ -412,6 +426,23 @@ func escScenario(s esc) sched.Scenario {
 					return
 				}
 				e.Observe("err=%s final=%s", cm.ErrClass(err), d.Cur)
+				if s.behaviour == "asks-gives-up" {
+					// the device showed the password prompt and withdrew it in the same burst: answering the prompt is
+					// legitimate only as long as the withdrawal has not been delivered yet
+					burstEnd := -1
+					for i, wr := range tr.Writes {
+						if i > 0 && string(wr.Data) == "\n" && string(tr.Writes[i-1].Data) == "enable" {
+							burstEnd = wr.SentAfter // (re-armed by every further attempt)
+						}
+						if strings.Contains(string(wr.Data), cm.Secret) && burstEnd >= 0 && wr.Delivered >= burstEnd {
+							e.Violate("c12:secret-typed-at-command-prompt", "secret written when all %d bytes of the burst (password prompt, refusal, exec prompt) had been delivered", burstEnd)
+						}
+					}
+					if err == nil {
+						e.Violate("c12:escalation-reported-success", "behaviour %s: AcquirePriv returned nil, device in %s", s.behaviour, d.Cur)
+					}
+					return
+				}
 				// the secret is only ever typed while the password prompt is displayed AND delivered
 				pwShownAt := -1
 				for _, wr := range tr.Writes {
@@ -456,8 +487,111 @@ func escScenario(s esc) sched.Scenario {
 	}}
 }
 
+// twinDialogues: two connections of one process run interactive sends at the same time. Connection A waits for
+// "A-confirm>" while its device has so far only printed a line that happens to contain the text connection B waits
+// for; B's dialogue runs to completion meanwhile. A must not type its next input before its own expected response
+// was delivered, whatever B is waiting for.
+func twinDialogues(pre int) sched.Scenario {
+	return sched.Scenario{Name: fmt.Sprintf("twin-dialogues/pre=%d", pre), Run: func(w *sched.W) {
+		cfg := cm.Cfg("chan.read.")
+		cfg.NoPreAlt = pre == 0
+		cfg.NoIdleAlt = true
+		cfg.Horizon = 5 * time.Second
+		w.Explore(cfg, sched.Bounds{Pre: pre}, func(e *sched.Env) {
+			raw := func(s string) *string { return &s }
+			dA := dev.NewCLI("a0",
+				&dev.Mode{Name: "a0", Prompt: "", OnLine: func(_ *dev.CLIDevice, line string) dev.Reply {
+					if line == "inA0" {
+						return dev.Reply{Raw: raw("checking: B-marker seen here\n"), Next: "a1"}
+					}
+					return dev.Reply{Raw: raw("")}
+				}},
+				&dev.Mode{Name: "a1", Prompt: "", OnLine: func(_ *dev.CLIDevice, line string) dev.Reply {
+					if line == "inA1" {
+						return dev.Reply{Raw: raw("all done\nrouter#"), Next: "a2"}
+					}
+					return dev.Reply{Raw: raw("")}
+				}},
+				&dev.Mode{Name: "a2", Prompt: "router#"})
+			dA.NoFirst = true
+			dB := dev.NewCLI("b0",
+				&dev.Mode{Name: "b0", Prompt: "", OnLine: func(_ *dev.CLIDevice, line string) dev.Reply {
+					if line == "inB0" {
+						return dev.Reply{Raw: raw("B-marker> "), Next: "b1"}
+					}
+					return dev.Reply{Raw: raw("")}
+				}},
+				&dev.Mode{Name: "b1", Prompt: "", OnLine: func(_ *dev.CLIDevice, line string) dev.Reply {
+					if line == "inB1" {
+						return dev.Reply{Raw: raw("ok\nrouter#"), Next: "b2"}
+					}
+					return dev.Reply{Raw: raw("")}
+				}},
+				&dev.Mode{Name: "b2", Prompt: "router#"})
+			dB.NoFirst = true
+			trA, trB := dev.NewFake(e, dA), dev.NewFake(e, dB)
+			var errA, errB, setupErr error
+			confirmEnd := -1
+			bDone := make(chan struct{})
+			e.Go("client", func() {
+				g, err := generic.NewDriver("devA", cm.BaseOpts(trA, cm.Ms, 300*cm.Ms, 0)...)
+				if err != nil {
+					setupErr = err
+					return
+				}
+				if setupErr = g.Open(); setupErr != nil {
+					return
+				}
+				_, errA = g.SendInteractive([]*channel.SendInteractiveEvent{
+					{ChannelInput: "inA0", ChannelResponse: "A-confirm>"},
+					{ChannelInput: "inA1", ChannelResponse: ""},
+				})
+			})
+			e.Go("client2", func() {
+				defer close(bDone)
+				g, err := generic.NewDriver("devB", cm.BaseOpts(trB, cm.Ms, 300*cm.Ms, 0)...)
+				if err != nil {
+					setupErr = err
+					return
+				}
+				if setupErr = g.Open(); setupErr != nil {
+					return
+				}
+				// start once A has typed its first input
+				for len(dA.NonEmptyLines()) == 0 {
+					time.Sleep(cm.Ms)
+				}
+				_, errB = g.SendInteractive([]*channel.SendInteractiveEvent{
+					{ChannelInput: "inB0", ChannelResponse: "B-marker"},
+					{ChannelInput: "inB1", ChannelResponse: ""},
+				})
+				// only now does device A print what A is waiting for
+				time.Sleep(3 * cm.Ms)
+				trA.Inject([]byte("A-confirm> "))
+				confirmEnd = trA.Sent()
+			})
+			e.OnFinish(func() {
+				if setupErr != nil || e.Verdict != "" {
+					e.Violate("c12:twin-session-failed", "%v %s %s", setupErr, e.Verdict, e.HangInfo)
+					return
+				}
+				e.Observe("errA=%s errB=%s", cm.ErrClass(errA), cm.ErrClass(errB))
+				for _, wr := range trA.Writes {
+					if string(wr.Data) == "inA1" && (confirmEnd < 0 || wr.Delivered < confirmEnd-1) {
+						e.Violate("c12:input-typed-ahead-other-connection", "connection A typed its second input when %d bytes were delivered; its expected response ends at byte %d (-1: not even printed yet)", wr.Delivered, confirmEnd)
+					}
+				}
+				if errA != nil || errB != nil {
+					e.Violate("c12:twin-dialogue-failed", "A: %v, B: %v", errA, errB)
+				}
+			})
+		})
+	}}
+}
+
 func scenarios(tier string) []sched.Scenario {
 	var out []sched.Scenario
+	out = append(out, twinDialogues(0), twinDialogues(1))
 	var lists [][]ev
 	var gen func(l []ev)
 	gen = func(l []ev) {
@@ -508,10 +642,11 @@ func scenarios(tier string) []sched.Scenario {
 			if mc == 0 {
 				env = envB + 1
 			}
-			out = append(out, cmdScenario(eager, false, false, mc, env), cmdScenario(eager, true, false, mc, env), cmdScenario(eager, false, true, mc, env))
+			out = append(out, cmdScenario(eager, false, false, mc, env), cmdScenario(eager, true, false, mc, env), cmdScenario(eager, false, true, mc, env),
+				cmdScenarioX(eager, false, false, true, mc, env), cmdScenarioX(eager, false, true, true, mc, env))
 		}
 	}
-	for _, b := range []string{"asks-grants", "grants", "refuses", "asks-refuses"} {
+	for _, b := range []string{"asks-grants", "grants", "refuses", "asks-refuses", "asks-gives-up"} {
 		for _, secret := range []bool{false, true} {
 			for _, auth := range []bool{false, true} {
 				for _, mc := range []int{0, 1, 3} {
@@ -534,7 +669,7 @@ func TestCheck(t *testing.T) {
 	sched.Main(t, sched.Check{
 		ID:    "C12",
 		Level: "model_checking",
-		Rule: "interactive: every event list of 1..3 events over {visible,hidden} x {expected response given, prompt awaited} x {device ends the dialogue early after event i with completion patterns given} x {verbatim, wrapped echo} x read presets {whole,1,3} with every placement of up to 1 (2 thorough) extra cuts/holds; plain command eager/not eager; escalation: device behaviour {asks then grants, grants without asking, refuses without asking, asks then refuses} x {secret set, not} x {edge authenticated, not}; " +
+		Rule: "interactive: every event list of 1..3 events over {visible,hidden} x {expected response given, prompt awaited} x {device ends the dialogue early after event i with completion patterns given} x {verbatim, wrapped echo} x read presets {whole,1,3} with every placement of up to 1 (2 thorough) extra cuts/holds; (+ answers longer than a lowered search depth); plain command eager/not eager x {ordinary, doubled last character with unread bytes before the echo, long repetitive, exact input matching}; escalation: device behaviour {asks then grants, grants without asking, refuses without asking, asks then refuses, asks and gives up in the same burst; grants/refuses also followed by an unsolicited log line} x {secret set, not} x {edge authenticated, not}; two connections of one process running dialogues at the same time; " +
 			"the causal device model decides when answers are delivered; oracle over the shared write/delivery log: input i written only after the answer to event i-1 was delivered completely, return after echo, hidden input not awaited, result = whole dialogue, secret written only while the password prompt is displayed and delivered",
 		Assumptions: []string{"each expected response is the last thing the device prints for its event", "the device never echoes hidden input"},
 		Scenarios:   scenarios,
